@@ -130,7 +130,7 @@ pub fn run(opts: &Opts) {
             for &l in FRAG_LENS {
                 for variant in 0..3 {
                     idx += 1;
-                    if !opts.mine(idx) {
+                    if !opts.mine_sys(idx) {
                         continue;
                     }
                     let mut rng = Rng::derive(opts.seed, "c15.sys", idx);
